@@ -16,6 +16,13 @@ type Clause struct {
 	Expr ast.Expr
 	File string
 	Line int
+	// WhereDefined: a check that applies only at the returns where every local it names is in scope
+	// (it must apply at one return at least)
+	WhereDefined bool
+	sites        int
+	Loc          string // assertat: substring of the source line
+	Nth          int    // assertat: which matching line of the function (1-based; 0 = every one)
+	skipped      string
 }
 
 type LoopContract struct {
@@ -44,6 +51,7 @@ type FuncContract struct {
 	SendPre    []*Clause // obligations on every channel send of the function (`ch` = the channel)
 	LitPred    string    // spec predicate assumed of every string literal of the function body (e.g. safe)
 	NoMonitor  bool      // exempt from re-establishing monitor invariants (configuration-time function)
+	AssertAt   []*Clause // ghost assertions placed before the statement on a named source line (Loc, Nth)
 	AtUnlock   []*Clause // assertions checked at every Unlock of the function (may mention locals and atlock())
 	Checks     []*Clause // internal postconditions (may mention locals; not exported to callers)
 	Functional bool
@@ -113,7 +121,7 @@ func newContracts() *Contracts {
 	return &Contracts{Funcs: map[string]*FuncContract{}, Specs: map[string]*SpecFunc{}, Decls: map[string][]string{}}
 }
 
-var keywordRe = regexp.MustCompile(`^(func|requires|ensures_on_panic|ensures|check|functional|closeonce|callpre|dyncall|ghost|atunlock|sendpre|nomonitor|unknowncalls|literals|modifies|pure|trusted|strict|mathint|maypanic|nobody|loop|param|spec|axiom|lemma|monitor|allocbound|decl)\b`)
+var keywordRe = regexp.MustCompile(`^(func|requires|ensures_on_panic|ensures|assertat|checkif|check|functional|closeonce|callpreif|callpre|dyncall|ghost|atunlock|sendpre|nomonitor|unknowncalls|literals|modifies|pure|trusted|strict|mathint|maypanic|nobody|loop|param|spec|axiom|lemma|monitor|allocbound|decl)\b`)
 
 // preprocess rewrites `A ==> B` into implies(A, B) (lowest precedence within its paren group)
 // and `A <==> B` into iff(A, B).
@@ -304,7 +312,7 @@ func (cs *Contracts) parseContractFile(path string, content []byte, pkgName stri
 					cur.Modifies = append(cur.Modifies, c)
 				}
 			}
-		case "callpre":
+		case "callpre", "callpreif":
 			if cur == nil {
 				fail(it.line, "callpre outside func")
 				continue
@@ -316,6 +324,8 @@ func (cs *Contracts) parseContractFile(path string, content []byte, pkgName stri
 			}
 			body := strings.TrimSpace(strings.TrimPrefix(rest, f[0]))
 			if c := mk(body, it.line); c != nil {
+				// callpreif: applies only at the call sites where every local it names is in scope (one at least)
+				c.WhereDefined = kw == "callpreif"
 				if cur.CallPre == nil {
 					cur.CallPre = map[string][]*Clause{}
 				}
@@ -355,6 +365,38 @@ func (cs *Contracts) parseContractFile(path string, content []byte, pkgName stri
 			if cur != nil {
 				cur.LitPred = strings.TrimSpace(rest)
 			}
+		case "assertat":
+			// assertat "source text"[#k] expr : a ghost assertion before the statement on the k-th line of the function
+			// that contains the text (locals in scope there may be named)
+			if cur == nil {
+				fail(it.line, "assertat outside func")
+				continue
+			}
+			r := strings.TrimSpace(rest)
+			if !strings.HasPrefix(r, "\"") {
+				fail(it.line, "assertat needs a quoted source text")
+				continue
+			}
+			end := strings.Index(r[1:], "\"")
+			if end < 0 {
+				fail(it.line, "assertat: unterminated text")
+				continue
+			}
+			loc := r[1 : 1+end]
+			r = r[2+end:]
+			nth := 0
+			if strings.HasPrefix(r, "#") {
+				j := 1
+				for j < len(r) && r[j] >= '0' && r[j] <= '9' {
+					nth = nth*10 + int(r[j]-'0')
+					j++
+				}
+				r = r[j:]
+			}
+			if c := mk(strings.TrimSpace(r), it.line); c != nil {
+				c.Loc, c.Nth = loc, nth
+				cur.AssertAt = append(cur.AssertAt, c)
+			}
 		case "atunlock":
 			if cur == nil {
 				fail(it.line, "atunlock outside func")
@@ -369,6 +411,16 @@ func (cs *Contracts) parseContractFile(path string, content []byte, pkgName stri
 				continue
 			}
 			if c := mk(rest, it.line); c != nil {
+				cur.Checks = append(cur.Checks, c)
+			}
+		case "checkif":
+			// check evaluated at the returns where all the locals it mentions are defined
+			if cur == nil {
+				fail(it.line, "checkif outside func")
+				continue
+			}
+			if c := mk(rest, it.line); c != nil {
+				c.WhereDefined = true
 				cur.Checks = append(cur.Checks, c)
 			}
 		case "functional":
